@@ -186,7 +186,8 @@ impl State {
     fn parse_fmt_flags(&self, val: &Cell) -> Option<FmtFlags> {
         let tags = val.tags()?;
         let fmt = tags.get(&FMT_TAG_NAME)?;
-        let raw = fmt.to_usize().ok()?;
+        // only the bits that encode formatting flags
+        let raw = fmt.to_usize().ok()? & 0xfff;
         Some(FmtFlags::from_raw(raw))
     }
 
